@@ -136,7 +136,7 @@ def run(ctx):
         doc = load(io.BytesIO(src))
         msx = '(' + ' '.join('(%s %s)' % (sx_str(p), sx_str(mt or '')) for p, mt in sp['manifest']) + ')'
         loaded_objs = sorted(k.folder[1:] + '/' for k in doc.childobjects)
-        fsx = P.foreign_folders_sx(sp)
+        fsx = P.foreign_folders_sx(sp, d)
         model_objs = sorted(p for p, mt in sp['manifest'] if d.call('pkg_classify', msx, fsx, sx_str(p)) == 'object')
         ctx.corr('load(): which manifest entries are embedded objects', [p for p, _ in sp['manifest']], model_objs, loaded_objs)
         model_extra = sorted(p for p, mt in sp['manifest'] if d.call('pkg_classify', msx, fsx, sx_str(p)) == 'extra')
